@@ -241,6 +241,14 @@ func (g *Gen) fill(kind string, p *Program) Op {
 	case "FormatState", "AppendVsSprintf":
 		op.D = []string{d()}
 		op.S = []string{g.Spec(verbsF, g.maxWP())}
+		if kind == "FormatState" && g.R.P(1, 3) {
+			// a State need not answer 0 for an absent width or precision, and
+			// its Write may refuse bytes
+			op.I = []int64{int64(g.R.Range(1, 60)), int64(g.R.Range(1, 60)), 0, 0}
+			if g.R.P(1, 4) {
+				op.I[2], op.I[3] = int64(g.R.Range(1, 3)), int64(g.R.N(12))
+			}
+		}
 	case "UnmarshalJSON":
 		op.B = []string{hx([]byte(g.jsonToken()))}
 		op.I = []int64{g.slot(nRecv)}
@@ -600,7 +608,75 @@ func Generate(prof *Profile, seed, run uint64) (*Program, *Gen) {
 		g.decs = append(g.decs, g.smallConst())
 	}
 	prof.Gen(g, p)
+	g.shareInputs(p)
 	return p, g
+}
+
+// sharedInputKinds take a read-only byte string as B[0].
+var sharedInputKinds = map[string]bool{"UnmarshalText": true, "UnmarshalJSON": true, "UnmarshalBinary": true, "Compose": true}
+
+// shareInputs makes some programs pass the very same input bytes (or
+// overlapping views of one array: a coefficient column with leading zero
+// padding) to calls of several tasks of an epoch, the way callers share a
+// read-only message. The bytes become a shared object of the pool.
+func (g *Gen) shareInputs(p *Program) {
+	if !g.R.P(1, 3) {
+		return
+	}
+	for ei := range p.Epochs {
+		ep := &p.Epochs[ei]
+		if len(ep.Tasks) < 2 || len(ep.Streams) > 0 || len(p.Pool.Bytes) >= 3 {
+			continue
+		}
+		type at struct{ ti, oi int }
+		var cands []at
+		for ti := range ep.Tasks {
+			for oi, op := range ep.Tasks[ti].Ops {
+				if sharedInputKinds[op.Kind] && len(op.B) > 0 && len(op.B[0]) > 0 {
+					cands = append(cands, at{ti, oi})
+				}
+			}
+		}
+		if len(cands) == 0 {
+			continue
+		}
+		c := cands[g.R.N(len(cands))]
+		src := ep.Tasks[c.ti].Ops[c.oi]
+		raw := unhex(src.B[0])
+		pad := 0
+		if src.Kind == "Compose" {
+			pad = []int{0, 0, 1, 3, 8, 24, 64}[g.R.N(7)]
+		}
+		shared := append(make([]byte, pad), raw...)
+		p.Pool.Bytes = append(p.Pool.Bytes, hx(shared))
+		for tj := range ep.Tasks {
+			if tj != c.ti && !g.R.P(2, 3) {
+				continue
+			}
+			cl := cloneOp(&src)
+			cl.B[0] = hx(shared[pad-g.R.N(pad+1):])
+			if tj == c.ti {
+				ep.Tasks[tj].Ops[c.oi] = cl
+				continue
+			}
+			ops := ep.Tasks[tj].Ops
+			k := g.R.N(len(ops) + 1)
+			ops = append(ops, Op{})
+			copy(ops[k+1:], ops[k:])
+			ops[k] = cl
+			ep.Tasks[tj].Ops = ops
+		}
+	}
+}
+
+func cloneOp(op *Op) Op {
+	c := *op
+	c.D = append([]string(nil), op.D...)
+	c.I = append([]int64(nil), op.I...)
+	c.S = append([]string(nil), op.S...)
+	c.B = append([]string(nil), op.B...)
+	c.Pre, c.PreLock, c.After = nil, nil, nil
+	return c
 }
 
 func (g *Gen) sharedPool(p *Program, maxBits int) {
